@@ -122,7 +122,8 @@ claim("C23", "model_checking", "TLA+ state machine of file sets (TLC, every tran
       "the last newline + 1) for every offset of every file is emitted with every transition and compared with FileSet.Position on the real objects after replaying the "
       "witness history. Second clause: 18 generated programs (leading blank lines x indentation x place of the call) are run and the file:line:col of the panic message "
       "must be the newline-counting position of the call.",
-      "Trusted: TLC, the replayer. Not modelled: //line directives, MergeLine, the end offset of a content ending in a newline, empty contents.",
+      "Trusted: TLC, the replayer. //line entries: not in the specification; the harness repeats every load on shadow sets whose files carry one entry with a column and requires "
+      "the adjusted Position of every offset to be unchanged by the JSON round trip (identity oracle). Not modelled: MergeLine, the end offset of a content ending in a newline, empty contents.",
       "DESIGN.md section 4 C23")
 
 claim("C26", "model_checking", "TLA+ spec of writer/chunked channel/reader (TLC invariant over every case) + replay of every case on the real reader with the same chunking; identity replay of all registered message kinds",
